@@ -27,7 +27,7 @@ SCHEDULE_MEASURE = "distinct (configuration, op history) hashes"
 COMPONENTS = {
     "real": ["pce500/keyboard_matrix.py KeyboardMatrix", "pce500/keyboard_handler.py register front end",
              "sc62015/core/src/keyboard.rs KeyboardMatrix::{press_matrix_code,release_matrix_code,handle_write,"
-             "handle_read,scan_tick,inject_matrix_event,write_fifo_to_memory,consume_pending_events}",
+             "handle_read,scan_tick,inject_matrix_event,write_fifo_to_memory,consume_pending_events,snapshot_state,load_snapshot_state}",
              "machine level: PCE500Emulator._scan_keyboard_per_instruction, CoreRuntime tick_timers_with_keyboard"],
     "stub": ["scan ticks are issued by the simulator (the timer that drives them is C13's)", "perfetto compiled out"],
 }
